@@ -145,6 +145,32 @@ def _reads_block_values(repo, cname, atoms, depth=3):
     return False
 
 
+def enum_decode_total(ctx, repo, rule):
+    """GeckoStructAccessor._get_value interpreted for an Enum item with 3 labels and every raw byte 0..255: a listed byte
+    reads its label, every other byte reads 'Unknown', nothing raises."""
+    gv = repo.own_method("GeckoStructAccessor", "_get_value")
+    interp = Interp(repo, max_depth=6)
+    acc_cls = repo.cls("GeckoStructAccessor")
+    bad = None
+    for raw in range(256):
+        obj = Obj(acc_cls, {"type": "Enum", "items": ["A", "B", "C"], "tag": "t"})
+        interp.call_hook = lambda ip, node, callee, args, kwargs, raw=raw: raw if getattr(getattr(callee, "fi", None), "name", "") == "_get_raw_value" else NotImplemented
+        try:
+            interp.steps = 0
+            v = interp.call(gv, obj, [None])
+            if raw >= 3 and v != "Unknown" and bad is None:
+                bad = (raw, v)
+            if raw < 3 and v != "ABC"[raw] and bad is None:
+                bad = (raw, v)
+        except PyRaise as e:
+            bad = bad or (raw, e.what)
+        except Undecided as e:
+            raise AnalysisError(f"_get_value: {e}")
+    interp.call_hook = None
+    ctx.ob(rule, "GeckoStructAccessor._get_value::all-raw-bytes", bad is None, f"enum decode of raw value {bad[0] if bad else ''} (3 labels) gives {bad[1] if bad else ''}: listed bytes read their label, every other byte reads 'Unknown'", gv.loc,
+           sample={"rule": rule, "raw_values": 256, "labels": 3})
+
+
 def check(ctx):
     repo = Repo()
     T = tables(repo)
@@ -331,26 +357,8 @@ def check(ctx):
                f"the shipped combination ({cs}, {ls}) fails to build: " + "; ".join(why_[:4]), T.modules[ls].path, detail={"pair": [cs, ls], "reasons": why_[:10]})
 
     # ---- R4 label lookups -----------------------------------------------------------------
-    gv = repo.own_method("GeckoStructAccessor", "_get_value")
-    # interpret it: 3 labels, raw 0..255
+    enum_decode_total(ctx, repo, "R4")
     interp = Interp(repo, max_depth=6)
-    acc_cls = repo.cls("GeckoStructAccessor")
-    bad = None
-    for raw in range(256):
-        obj = Obj(acc_cls, {"type": "Enum", "items": ["A", "B", "C"], "tag": "t"})
-        interp.call_hook = lambda ip, node, callee, args, kwargs, raw=raw: raw if getattr(getattr(callee, "fi", None), "name", "") == "_get_raw_value" else NotImplemented
-        try:
-            interp.steps = 0
-            v = interp.call(gv, obj, [None])
-            if raw >= 3 and v != "Unknown" and bad is None:
-                bad = (raw, v)
-        except PyRaise as e:
-            bad = bad or (raw, e.what)
-        except Undecided as e:
-            raise AnalysisError(f"_get_value: {e}")
-    interp.call_hook = None
-    ctx.ob("R4", "GeckoStructAccessor._get_value::all-raw-bytes", bad is None, f"enum decode of raw value {bad[0] if bad else ''} gives {bad[1] if bad else ''}", gv.loc,
-           sample={"rule": "R4", "raw_values": 256, "labels": 3})
     # watercare renderings for every byte
     wc = repo.cls("GeckoWaterCare")
     from ..facademodel import Rec as _Rec, model_facade as _mf
@@ -566,6 +574,23 @@ def check(ctx):
     ctx.floor("R9", "error-flag valuations", n_es, 8)
     # ---- R8 heater members are total: an out-of-label unit byte reads 'Unknown' (R4) and every read-only member of the
     # heater, built by its own constructor on a model spa, must still evaluate (with / without the flag items)
+    ctx.rule("R10", "device states are total: on the facades built for the richest shipped (config, log) pair of every platform, every automation device is read with each of its Enum items holding a byte outside its label list (the accessor reads 'Unknown'): every read-only member of the device (properties, __str__, __repr__) evaluates without raising")
+    from ..buildmodel import out_of_list_states as _ools
+    n10_, m10_ = 0, 0
+    for (plat_, cs_, ls_, fcls_), (r_, extra_) in sorted(_ools(repo, T).items()):
+        if r_ is not None or extra_ is None:
+            continue      # a pair whose facade cannot be built is R1's finding
+        bad_, nm_ = extra_
+        n10_ += 1
+        m10_ += nm_
+        ctx.ob("R10", f"{fcls_}::{plat_}::out-of-list-states-read", not bad_,
+               f"{fcls_} built on ({cs_}, {ls_}): with the devices' Enum items reading 'Unknown' (a byte outside the label list) {len(bad_)} member read(s) fail, e.g. {bad_[:3]} - "
+               f"an out-of-list state must read as 'Unknown', not raise into whoever polls the device", repo.method(fcls_, "all_automation_devices").loc,
+               sample={"rule": "R10", "facade": fcls_, "platform": plat_, "members_evaluated": nm_} if plat_.startswith("inyt") else None)
+    ctx.count("R10:facades inspected", n10_)
+    ctx.count("R10:device members evaluated with out-of-list states", m10_)
+    ctx.floor("R10", "facades inspected with out-of-list device states", n10_, 10)
+    ctx.floor("R10", "device members evaluated with out-of-list states", m10_, 500)
     ctx.rule("R8", "heater totality: with the unit item reading 'C', 'F' or 'Unknown' (any out-of-label byte) and every presence pattern AND every value of the heating / cooling flag items (both set included: two independent bits of a block), every read-only member of GeckoWaterHeater evaluates without raising")
     from .c14 import build_heater
     hcls = repo.cls("GeckoWaterHeater")
